@@ -126,11 +126,18 @@ Bind(args, i, pos, f, lib, Dev) ==
        ELSE <<[key |-> <<NumAtoms[pos]>>, val |-> Eval(a.val, f, lib, Dev)]>>
             \o Bind(args, i + 1, pos + 1, f, lib, Dev)
 
+\* a case written without "=value" (|a|b|c=X) falls through to the next case that has a
+\* value; it is represented by the one-item content <<[k |-> "ft"]>> as its val
+IsFT(c) == Len(c.val) = 1 /\ c.val[1].k = "ft"
+NextValued(cases, i) == IF \E j \in i..Len(cases) : ~IsFT(cases[j])
+                        THEN CHOOSE j \in i..Len(cases) : ~IsFT(cases[j]) /\ \A k \in i..(j - 1) : IsFT(cases[k])
+                        ELSE 0
 SwitchEval(v, i, it, f, lib, Dev) ==
   IF i > Len(it.cases)
   THEN IF it.hasDflt THEN Trim(Eval(it.dflt, f, lib, Dev)) ELSE <<>>
   ELSE IF Trim(it.cases[i].key) = v
-       THEN Trim(Eval(it.cases[i].val, f, lib, Dev))
+       THEN LET j == NextValued(it.cases, i) IN
+            IF j = 0 THEN <<>> ELSE Trim(Eval(it.cases[j].val, f, lib, Dev))
        ELSE SwitchEval(v, i + 1, it, f, lib, Dev)
 
 \* links are transparent containers: their |-separated parts are evaluated in place
@@ -182,6 +189,6 @@ CallsInItem(it) ==
     [] it.k = "if" -> CallsIn(it.c) \cup CallsIn(it.y) \cup CallsIn(it.n)
     [] it.k = "eq" -> CallsIn(it.a) \cup CallsIn(it.b) \cup CallsIn(it.y) \cup CallsIn(it.n)
     [] it.k = "sw" -> CallsIn(it.v) \cup CallsIn(it.dflt)
-                      \cup UNION {CallsIn(it.cases[i].val) : i \in 1..Len(it.cases)}
+                      \cup UNION {IF IsFT(it.cases[i]) THEN {} ELSE CallsIn(it.cases[i].val) : i \in 1..Len(it.cases)}
 CallsIn(c) == UNION {CallsInItem(c[i]) : i \in 1..Len(c)}
 =============================================================================
